@@ -1,5 +1,6 @@
 """C20 -- CP^1 points, disks, Moebius maps (O1, K1, K2, U1)."""
 from ..rules import cp1_rules as R
+from ..rules import dtype_rules as DTY
 from ..rules import cache_rules as CA
 from ..rules import sibling_rules as SI
 from ..rules import degree_rules as DG
@@ -24,6 +25,7 @@ def run(ctx):
     ctx.do(R.rule_o1, [REL, "geometry_tools/utils/cp1.py"])
     ctx.do(R.rule_k1, REL)
     ctx.do(R.rule_k2)
+    ctx.do(DTY.rule_emath1, [REL])
     ctx.do(SI.rule_k3)
     ctx.do(DG.rule_hd2)
     ctx.do(SI.rule_pt1, [SI.CP])
